@@ -337,6 +337,9 @@ def _hints_from_signature(obj: tp.Union[type, tp.Callable]) -> dict[str, type[tp
         return {}
     hints = {}
     for name, param in params.items():
+        # `*args` / `**kwargs` collect arguments, they don't name a field.
+        if param.kind in (param.VAR_POSITIONAL, param.VAR_KEYWORD):
+            continue
         annotation = param.annotation
         if annotation is param.empty:
             annotation = tp.Any
